@@ -258,4 +258,118 @@ theorem bFind_none_iff (b : Config) (n : String) : bFind b n = none ↔ n ∉ b.
   · intro h i hi hc
     exact h (List.mem_map.mpr ⟨i, List.mem_reverse.mp hi, by simpa using hc⟩)
 
+
+/-! ## upper bound: only ACLs bound by marked interfaces become `needed` -/
+
+theorem markNeededIntf_bound (a : Config) (st : St) (i : Intf) :
+    ∀ n ∈ (markNeededIntf a st i).aNeeded, n ∈ st.aNeeded ∨ n ∈ i.binds.map (·.acl) := by
+  have key : ∀ (bs : List Bind) (s : List Name),
+      ∀ n ∈ bs.foldl (fun s b => if a.hasAcl b.acl then addSet b.acl s else s) s, n ∈ s ∨ n ∈ bs.map (·.acl) := by
+    intro bs
+    induction bs with
+    | nil => intro s n h; exact Or.inl h
+    | cons b bs ih =>
+      intro s n hn
+      simp only [List.foldl_cons] at hn
+      rcases ih _ n hn with h4 | h4
+      · split at h4
+        · rcases mem_addSet.mp h4 with rfl | h5
+          · exact Or.inr (by simp)
+          · exact Or.inl h5
+        · exact Or.inl h4
+      · exact Or.inr (by simp [h4])
+  exact key i.binds st.aNeeded
+
+/-- `N` bounds the `needed` device ACLs. -/
+def NeededIn (N : List Name) (st : St) : Prop := ∀ n ∈ st.aNeeded, n ∈ N
+
+theorem fold_marks_bound (a : Config) (hit : String) (N : List Name) (l : List Intf)
+    (hl : ∀ i ∈ l, ∀ n ∈ i.binds.map (·.acl), n ∈ N) (s : St) (hs : NeededIn N s) :
+    NeededIn N (l.foldl (fun st i => (markNeededIntf a st i).hit hit) s) := by
+  induction l generalizing s with
+  | nil => exact hs
+  | cons x xs ih =>
+    simp only [List.foldl_cons]
+    apply ih (fun i hi => hl i (List.mem_cons_of_mem _ hi))
+    intro n hn
+    rcases markNeededIntf_bound a s x n hn with h | h
+    · exact hs n h
+    · exact hl x (List.mem_cons_self ..) n h
+
+theorem fold_msgs_bound {α : Type} (N : List Name) (f : α → String) (l : List α) (s : St) (hs : NeededIn N s) :
+    NeededIn N (l.foldl (fun st v => st.msg (f v)) s) := by
+  induction l generalizing s with
+  | nil => exact hs
+  | cons x xs ih => exact ih _ hs
+
+theorem alignVRFs_bound (a b : Config) (st : St) (N : List Name) (hs : NeededIn N st)
+    (hN : ∀ i ∈ a.intfs, i ∉ (alignVRFs a b st).2.intfs → ∀ n ∈ i.binds.map (·.acl), n ∈ N) :
+    NeededIn N (alignVRFs a b st).1 := by
+  unfold alignVRFs at hN ⊢
+  simp only at hN ⊢
+  split
+  · exact hs
+  · rename_i hne
+    simp only [hne, Bool.false_eq_true, ↓reduceIte] at hN
+    apply fold_msgs_bound
+    have h1 := fold_marks_bound a "align:interface-removed" N
+      (a.intfs.filter fun i => !(b.intfs.map (·.vrf) ++ b.routes.map (·.vrf)).contains i.vrf)
+      (by
+        intro i hi
+        obtain ⟨h1, h2⟩ := List.mem_filter.mp hi
+        apply hN i h1
+        intro hc
+        have := (List.mem_filter.mp hc).2
+        rw [this] at h2
+        cases h2) st hs
+    split
+    · exact h1
+    · exact h1
+
+theorem checkStep_bound (a b : Config) (N : List Name) (s : St × Bool) (x : Intf) (hs : NeededIn N s.1)
+    (hx : bFind b x.name = none → ∀ n ∈ x.binds.map (·.acl), n ∈ N) : NeededIn N (checkStep a b s x).1 := by
+  unfold checkStep
+  split
+  · exact hs
+  · cases hb : bFind b x.name with
+    | some bi =>
+      simp only
+      have h1 : NeededIn N (if (x.addr != bi.addr && bi.addr != "negotiated") = true then
+          (s.1.msg ("WARNING>>> Different address defined for interface " ++ x.name ++ ": Device: " ++ quote x.addr ++
+            ", Netspoc: " ++ quote bi.addr)).hit "check:address-differs" else s.1) := by
+        split <;> exact hs
+      split
+      · exact h1
+      · split <;> exact h1
+    | none =>
+      simp only
+      have h1 : NeededIn N (markNeededIntf a s.1 x) := by
+        intro n hn
+        rcases markNeededIntf_bound a s.1 x n hn with h | h
+        · exact hs n h
+        · exact hx hb n h
+      split <;> exact h1
+
+theorem checkInterfaces_bound (a b : Config) (st : St) (N : List Name) (hs : NeededIn N st)
+    (hN : ∀ x ∈ a.intfs, bFind b x.name = none → ∀ n ∈ x.binds.map (·.acl), n ∈ N) :
+    NeededIn N (checkInterfaces a b st).1 := by
+  have hfold : ∀ (l : List Intf) (s : St × Bool), (∀ x ∈ l, x ∈ a.intfs) → NeededIn N s.1 →
+      NeededIn N (l.foldl (checkStep a b) s).1 := by
+    intro l
+    induction l with
+    | nil => intro s _ h; exact h
+    | cons x xs ih =>
+      intro s hl h
+      simp only [List.foldl_cons]
+      exact ih _ (fun y hy => hl y (List.mem_cons_of_mem _ hy))
+        (checkStep_bound a b N s x h (hN x (hl x (List.mem_cons_self ..))))
+  unfold checkInterfaces
+  simp only
+  have h1 := hfold a.intfs (st, true) (fun _ h => h) hs
+  split
+  · exact h1
+  · split
+    · exact h1
+    · exact h1
+
 end NA.F2
